@@ -44,7 +44,8 @@ def _implicit_case(draw):
 @st.composite
 def _rect_case(draw):
     r, c = draw(st.integers(1, 4)), draw(st.integers(1, 4))
-    shape = draw(st.sampled_from(["rect", "blockrow", "blockcol", "product"]))
+    shape = draw(st.sampled_from(["rect", "blockrow", "blockcol", "product", "blockrow-identity-first",
+                                  "blockcol-identity-first"]))
     return {"kind": "rect", "shape": shape, "r": r, "c": c, "c2": draw(st.integers(1, 4)),
             "X": draw(vec(16, -2.0, 2.0)), "Y": draw(vec(16, -2.0, 2.0)),
             "sq": draw(mtree.node(r, 1, "sq")), "s": draw(mtree.nz), "data": draw(vec(24, -2.0, 2.0))}
@@ -111,10 +112,16 @@ def observe(res, M, R, tol, data, label, s):
     ck.eq("shape", lambda: np.array(M.shape), np.array(R.shape))
     v, B = _arr(data, m), _arr(data[3:], m, 2)
     u, C = _arr(data[5:], n), _arr(data[7:], 3, n)
-    ck.eq("matmul-vector", lambda: M @ v, R @ v)
-    ck.eq("matmul-matrix", lambda: M @ B, R @ B)
-    ck.eq("rmatmul-vector", lambda: u @ M, u @ R)
-    ck.eq("rmatmul-matrix", lambda: C @ M, C @ R)
+    operands = {"v": (v, v.copy()), "B": (B, B.copy()), "u": (u, u.copy()), "C": (C, C.copy())}
+    for rep in ("", ":again"):       # the same product twice: the operand must not have been consumed
+        ck.eq("matmul-vector" + rep, lambda: M @ v, R @ operands["v"][1])
+        ck.eq("matmul-matrix" + rep, lambda: M @ B, R @ operands["B"][1])
+        ck.eq("rmatmul-vector" + rep, lambda: u @ M, operands["u"][1] @ R)
+        ck.eq("rmatmul-matrix" + rep, lambda: C @ M, operands["C"][1] @ R)
+    for name, (arr, orig) in operands.items():
+        if not np.array_equal(arr, orig):
+            res.fail(f"C10:{label}:operand-modified", f"a product with {label} modified its array operand {name}")
+            arr[...] = orig
     ck.eq("diagonal", lambda: M.diagonal, np.diag(R) if n == m else np.diagonal(R))
     ck.eq("T.array", lambda: M.T.array, R.T)
     ck.eq("T-matmul", lambda: M.T @ u, R.T @ u)
@@ -271,6 +278,12 @@ def run_rect(res, case):
     elif shape == "blockcol":
         M = mm.BlockColumnMatrix([mm.DenseRectangularMatrix(X.T), sq.M, mm.DenseRectangularMatrix(Y.T)])
         R = np.concatenate([X.T, sq.R, Y.T], axis=0)
+    elif shape == "blockrow-identity-first":      # augmented matrix [I, A, Y]
+        M = mm.BlockRowMatrix([mm.IdentityMatrix(r), sq.M, mm.DenseRectangularMatrix(Y)])
+        R = np.concatenate([np.eye(r), sq.R, Y], axis=1)
+    elif shape == "blockcol-identity-first":      # augmented matrix [I; A; Y']
+        M = mm.BlockColumnMatrix([mm.IdentityMatrix(r), sq.M, mm.DenseRectangularMatrix(Y.T)])
+        R = np.concatenate([np.eye(r), sq.R, Y.T], axis=0)
     else:
         M = sq.M @ mm.DenseRectangularMatrix(X) @ mm.DenseRectangularMatrix(X.T) @ mm.DenseRectangularMatrix(Y)
         R = sq.R @ X @ X.T @ Y
